@@ -406,6 +406,33 @@ for (cyc, f, dt, nb, na) in sweep:
                       dict(repl, max_abs_err=float(np.max(np.abs(out1 - want))) if out1.shape == want.shape else None,
                            second_call_equal=bool(np.array_equal(out1, out2))))
 
+# a toneburst sampled with another step than the output window cannot be placed sample by sample: the function refuses it
+# (NotImplementedError); silently going on would stretch or compress every echo by the ratio of the steps
+for (dt_tb, dt_out) in ((10e-9, 20e-9), (10e-9, 12.5e-9), (20e-9, 25e-9), (10e-9, 16e-9), (50e-9, 40e-9), (1e-7, 1.0000001e-7)):
+    tt, tb, t0 = model.make_toneburst2(5, 2e6, dt_tb, num_before=1, num_after=1)
+    n = len(tt)
+    freq, tb_f = np.fft.rfftfreq(n, dt_tb), np.fft.rfft(tb)
+    k_ = t0 + 20
+    H1 = np.ones((1, 1, 1), complex)
+    evaluations += 1
+    chk.count(step_mismatch="toneburst and window steps differ")
+    try:
+        o_ = np.array(model.transfer_func_to_timetraces(H1, np.array([[k_ * dt_out]]), Time(0.0, dt_out, 3 * n), tt, freq, tb_f, t0))
+    except NotImplementedError:
+        continue
+    except Exception as e:      # noqa: BLE001
+        chk.violation("tf:step-mismatch", f"steps of toneburst ({dt_tb}) and window ({dt_out}) differ: raises {type(e).__name__}, not NotImplementedError",
+                      {"toneburst_step": dt_tb, "window_step": dt_out, "exception": repr(e)}, failing_input_found=False)
+        continue
+    # accepted: then the echo must really be the analytic toneburst (duration n * dt_tb) on the window's own time axis
+    analytic = arim.signal.rfft_to_hilbert(tb_f, n)
+    t_out = np.arange(3 * n) * dt_out
+    want_env = np.interp(t_out, (np.arange(n) - t0) * dt_tb + k_ * dt_out, np.abs(analytic), left=0.0, right=0.0)
+    if not np.allclose(np.abs(o_[0]), want_env, rtol=0, atol=0.05):
+        chk.violation("tf:step-mismatch", "a toneburst sampled with another step than the output window is accepted and the echo is "
+                      "stretched / compressed by the ratio of the steps", {"toneburst_step": dt_tb, "window_step": dt_out,
+                                                                            "max_envelope_error": float(np.max(np.abs(np.abs(o_[0]) - want_env)))})
+
 # model side: delay split on the exact rational value of the float inputs (NumQ)
 lits, keep = [], []
 for i, (rel, dt, q_obs, info) in enumerate(ds_cases):
